@@ -180,6 +180,33 @@ func modFunctions(c *Ctx) []*ssa.Function {
 			}
 		}
 	}
+	// generic functions: what runs are their instantiations (the program is built
+	// with ssa.InstantiateGenerics); add every module instance reachable by a static
+	// call or taken as a value, and drop the un-instantiated origins
+	for i := 0; i < len(out); i++ {
+		for _, b := range out[i].Blocks {
+			for _, in := range b.Instrs {
+				for _, op := range in.Operands(nil) {
+					if g, ok := (*op).(*ssa.Function); ok && g != nil && len(g.TypeArgs()) > 0 && isModFunc(g) {
+						add(g)
+					}
+				}
+			}
+		}
+	}
+	kept := out[:0]
+	for _, f := range out {
+		if tp := f.TypeParams(); tp != nil && tp.Len() > 0 && len(f.TypeArgs()) == 0 {
+			continue
+		}
+		if p := f.Parent(); p != nil {
+			if tp := outermost(f).TypeParams(); tp != nil && tp.Len() > 0 && len(outermost(f).TypeArgs()) == 0 {
+				continue
+			}
+		}
+		kept = append(kept, f)
+	}
+	out = kept
 	sort.Slice(out, func(i, j int) bool { return out[i].String() < out[j].String() })
 	return out
 }
@@ -627,7 +654,11 @@ func (sf *StatusFlow) callResult(call *ssa.Call, idx int, fn *ssa.Function) *SS 
 	}
 	if callee == nil {
 		if call.Call.IsInvoke() {
-			out.unknown("result of dynamic call "+call.Call.Method.FullName(), call.Pos(), fname(fn))
+			why := "result of dynamic call " + call.Call.Method.FullName()
+			if call.Call.Method.Name() == "Execute" && isLintBodyIface(sfCtx, call.Call.Value.Type()) {
+				why = "result of dynamic call of a rule body: LintInterface).Execute"
+			}
+			out.unknown(why, call.Pos(), fname(fn))
 		} else {
 			out.unknown("result of call through a function value", call.Pos(), fname(fn))
 		}
